@@ -1,11 +1,27 @@
 from excel2pycl.src.cell import Cell
 from excel2pycl.src.exceptions import E2PyclParserException
-from excel2pycl.src.tokens import EntryPointToken
+from excel2pycl.src.tokens import EntryPointToken, BracketStartToken, BracketFinishToken, PlusOperatorToken, \
+    MinusOperatorToken
 
 
 class AstBuilder:
+    MAX_NESTING = 64
+
     @classmethod
     def parse(cls, expression: list, in_cell: Cell):
+        # brackets and runs of signs become nested brackets of the generated python expression, and python refuses to
+        # compile an expression that is nested deeper than about 200 levels (Excel itself stops at 64)
+        depth = run = 0
+        for lexeme in expression:
+            if lexeme.__class__ is BracketStartToken:
+                depth += 1
+            elif lexeme.__class__ is BracketFinishToken:
+                depth -= 1
+            run = run + 1 if lexeme.__class__ in (PlusOperatorToken, MinusOperatorToken) else 0
+            if max(depth, run) > cls.MAX_NESTING:
+                raise E2PyclParserException(
+                    f'The formula in the cell {in_cell} is nested deeper than {cls.MAX_NESTING} levels')
+
         token, rest = EntryPointToken.get(expression, in_cell)
         # the formula must be consumed as a whole: a parsed prefix followed by tokens that fit nowhere
         # (=1+2), =1 2, =SUM(1,2))) is a malformed formula, not the formula =1+2
